@@ -52,15 +52,15 @@ theorem C05_sum_over_subsets_value (c : Consts K) (log : K → K) (zero : Bool) 
 
 /-- Hessian times input, accumulated subset after subset into the same output (`accumulate_Hessian_times_input`),
     is the Hessian times input of the full data -/
-theorem C05_sum_over_subsets_hessTimes (c : Consts K) (img x : Nat → K) (Ss : List (List (Viewgram K)))
+theorem C05_sum_over_subsets_hessTimes (c : Consts K) (zero : Bool) (img x : Nat → K) (Ss : List (List (Viewgram K)))
     (All : List (Viewgram K)) (h : Ss.flatten.Perm All) (out0 : K) (v : Nat) :
-    Ss.foldl (fun o S => hessTimes c img x o S v) out0 = hessTimes c img x out0 All v := by
-  rw [hessTimes_foldl]; exact hessTimes_perm c img x out0 h v
+    Ss.foldl (fun o S => hessTimes c zero img x o S v) out0 = hessTimes c zero img x out0 All v := by
+  rw [hessTimes_foldl]; exact hessTimes_perm c zero img x out0 h v
 
-theorem C05_sum_over_subsets_approxHess (c : Consts K) (x : Nat → K) (Ss : List (List (Viewgram K)))
+theorem C05_sum_over_subsets_approxHess (c : Consts K) (zero : Bool) (x : Nat → K) (Ss : List (List (Viewgram K)))
     (All : List (Viewgram K)) (h : Ss.flatten.Perm All) (out0 : K) (v : Nat) :
-    Ss.foldl (fun o S => approxHess c x o S v) out0 = approxHess c x out0 All v := by
-  rw [approxHess_foldl]; exact approxHess_perm c x out0 h v
+    Ss.foldl (fun o S => approxHess c zero x o S v) out0 = approxHess c zero x out0 All v := by
+  rw [approxHess_foldl]; exact approxHess_perm c zero x out0 h v
 
 /-- when `use_subset_sensitivities` is off every subset reports the total divided by the number of subsets:
     these shares again add up to the total -/
@@ -103,31 +103,31 @@ theorem C05_penalised_full_eq_sum_over_subsets {α} (q : α → K) (p : K) (Ss :
 /-- `accumulate_Hessian_times_input` on an object with a prior (the subsets accumulated one after the other into the same
     output, every step penalised with the share `H_prior·input / num_subsets`) is the unpenalised full-data Hessian product
     minus the whole prior term `H_prior·input` -/
-theorem C05_penalised_full_hessTimes (c : Consts K) (img x : Nat → K) (Ss : List (List (Viewgram K)))
+theorem C05_penalised_full_hessTimes (c : Consts K) (zero : Bool) (img x : Nat → K) (Ss : List (List (Viewgram K)))
     (All : List (Viewgram K)) (h : Ss.flatten.Perm All) (hn : Ss ≠ []) (priorOfInput out0 : K) (v : Nat) :
-    hessTimesPenFull c img x priorOfInput (Ss.length : K) out0 Ss v
-      = penalisedFull (hessTimes c img x out0 All v) priorOfInput := by
-  rw [hessTimesPenFull_eq, length_mul_share Ss hn, hessTimes_perm c img x out0 h v]; rfl
+    hessTimesPenFull c zero img x priorOfInput (Ss.length : K) out0 Ss v
+      = penalisedFull (hessTimes c zero img x out0 All v) priorOfInput := by
+  rw [hessTimesPenFull_eq, length_mul_share Ss hn, hessTimes_perm c zero img x out0 h v]; rfl
 
 /-- likewise `add_multiplication_with_approximate_Hessian` -/
-theorem C05_penalised_full_approxHess (c : Consts K) (x : Nat → K) (Ss : List (List (Viewgram K)))
+theorem C05_penalised_full_approxHess (c : Consts K) (zero : Bool) (x : Nat → K) (Ss : List (List (Viewgram K)))
     (All : List (Viewgram K)) (h : Ss.flatten.Perm All) (hn : Ss ≠ []) (priorOfInput out0 : K) (v : Nat) :
-    approxHessPenFull c x priorOfInput (Ss.length : K) out0 Ss v
-      = penalisedFull (approxHess c x out0 All v) priorOfInput := by
-  rw [approxHessPenFull_eq, length_mul_share Ss hn, approxHess_perm c x out0 h v]; rfl
+    approxHessPenFull c zero x priorOfInput (Ss.length : K) out0 Ss v
+      = penalisedFull (approxHess c zero x out0 All v) priorOfInput := by
+  rw [approxHessPenFull_eq, length_mul_share Ss hn, approxHess_perm c zero x out0 h v]; rfl
 
 /-- the loop the driver executes on the per-subset products at one voxel is the model's full-data penalised Hessian product -/
-theorem C05_penFullAccumulate_is_hessTimesPenFull (c : Consts K) (img x : Nat → K) (priorOfInput nn out0 : K)
+theorem C05_penFullAccumulate_is_hessTimesPenFull (c : Consts K) (zero : Bool) (img x : Nat → K) (priorOfInput nn out0 : K)
     (Ss : List (List (Viewgram K))) (v : Nat) :
-    penFullAccumulate (Ss.map fun S => imageAt (hessContribs c img x S) v) priorOfInput nn out0
-      = hessTimesPenFull c img x priorOfInput nn out0 Ss v := by
+    penFullAccumulate (Ss.map fun S => imageAt (hessContribs c zero img x S) v) priorOfInput nn out0
+      = hessTimesPenFull c zero img x priorOfInput nn out0 Ss v := by
   unfold penFullAccumulate hessTimesPenFull hessTimes
   rw [List.foldl_map]
 
-theorem C05_penFullAccumulate_is_approxHessPenFull (c : Consts K) (x : Nat → K) (priorOfInput nn out0 : K)
+theorem C05_penFullAccumulate_is_approxHessPenFull (c : Consts K) (zero : Bool) (x : Nat → K) (priorOfInput nn out0 : K)
     (Ss : List (List (Viewgram K))) (v : Nat) :
-    penFullAccumulate (Ss.map fun S => imageAt (ahessContribs c x S) v) priorOfInput nn out0
-      = approxHessPenFull c x priorOfInput nn out0 Ss v := by
+    penFullAccumulate (Ss.map fun S => imageAt (ahessContribs c zero x S) v) priorOfInput nn out0
+      = approxHessPenFull c zero x priorOfInput nn out0 Ss v := by
   unfold penFullAccumulate approxHessPenFull approxHess
   rw [List.foldl_map]
 
@@ -165,33 +165,58 @@ theorem C05_segRange (setting dataMax : Int) :
         subst hm
         exact ⟨by omega, fun h => absurd h hs, fun _ => rfl⟩
 
+/-- the TOF range after `set_up` ("maximum … TOF range"): the maximum TOF bin of the data for the default `-1`, the setting
+    itself otherwise; refused exactly when the setting exceeds the data.  Value, gradient, sensitivity and both Hessian
+    products are those of the TOF bins `-m … m` (the harness hands exactly these viewgrams to the model and to the textbook oracle) -/
+theorem C05_tofRange (setting dataMax : Int) :
+    (tofRangeAfterSetUp setting dataMax = none ↔ (setting ≠ -1 ∧ dataMax < setting)) ∧
+    ∀ m, tofRangeAfterSetUp setting dataMax = some m → m ≤ dataMax ∧ (setting = -1 → m = dataMax) ∧ (setting ≠ -1 → m = setting) :=
+  C05_segRange setting dataMax
+
 /-- TOF data with normalisation factors per TOF bin: when `set_up` computes the sensitivities it does so with the same (TOF)
     projector as the gradient — whatever `use_tofsens` was — so that `C05_grad_eq_gradPlusSens_sub_sens` applies to what the
-    library computes; without TOF factors the switch is left as the user set it -/
-theorem C05_tof_norm_uses_same_projector (useTofsens tofData : Bool) (links : List Bool) (h : true ∈ links) :
-    sensUsesSameProjector tofData (useTofsensAfterSetUp true useTofsens tofData (isTofOnlyNorm links)) = true := by
+    library computes -/
+theorem C05_tof_norm_uses_same_projector (useTofsens tofData restricted : Bool) (links : List Bool) (h : true ∈ links) :
+    sensUsesSameProjector tofData (useTofsensAfterSetUp true useTofsens tofData (isTofOnlyNorm links) restricted) = true := by
   have hl : isTofOnlyNorm links = true := by
     unfold isTofOnlyNorm; exact List.any_eq_true.mpr ⟨true, h, rfl⟩
   rw [hl]
-  cases useTofsens <;> cases tofData <;> rfl
+  cases useTofsens <;> cases tofData <;> cases restricted <;> rfl
 
+/-- a TOF range below the maximum of the data: the sensitivity computed by `set_up` is the one of the same TOF bins with the
+    same projector (a non-TOF sensitivity would be the sum over all TOF bins), so that gradient-plus-sensitivity minus
+    gradient is that sensitivity -/
+theorem C05_restricted_tof_range_uses_same_projector (useTofsens tofData normTof : Bool) :
+    sensUsesSameProjector tofData (useTofsensAfterSetUp true useTofsens tofData normTof true) = true := by
+  cases useTofsens <;> cases tofData <;> cases normTof <;> rfl
+
+/-- without TOF factors and with the full TOF range — or when `set_up` does not compute the sensitivities — the switch is left
+    as the user set it -/
 theorem C05_tofsens_unchanged_without_tof_norm (recompute useTofsens tofData : Bool) (links : List Bool) (h : true ∉ links) :
-    useTofsensAfterSetUp recompute useTofsens tofData (isTofOnlyNorm links) = useTofsens := by
+    useTofsensAfterSetUp recompute useTofsens tofData (isTofOnlyNorm links) false = useTofsens ∧
+    ∀ normTof restricted, useTofsensAfterSetUp false useTofsens tofData normTof restricted = useTofsens := by
   have hl : isTofOnlyNorm links = false := by
     unfold isTofOnlyNorm
     rw [Bool.eq_false_iff]; intro hh
     obtain ⟨b, hb, hb'⟩ := List.any_eq_true.mp hh
     simp only [id] at hb'; subst hb'; exact h hb
   rw [hl]
-  cases recompute <;> cases useTofsens <;> cases tofData <;> rfl
+  refine ⟨?_, ?_⟩
+  · cases recompute <;> cases useTofsens <;> cases tofData <;> rfl
+  · intro normTof restricted
+    cases useTofsens <;> cases tofData <;> cases normTof <;> cases restricted <;> rfl
 
 /-- non-vacuity: 4 views in 3 subsets (2, 1, 1 viewgrams) are refused without subset sensitivities and accepted with them;
     a chain `table × FromProjData(TOF)` switches the TOF sensitivity on; segment settings -1, 1, 3 on data with maximum 2 -/
 example : setUpAcceptsSubsets false [2, 1, 1] = false ∧ setUpAcceptsSubsets true [2, 1, 1] = true ∧
     setUpAcceptsSubsets false [2, 2] = true := by decide
 
-example : useTofsensAfterSetUp true false true (isTofOnlyNorm [false, true]) = true ∧
-    useTofsensAfterSetUp false false true (isTofOnlyNorm [false, true]) = false := by decide
+example : useTofsensAfterSetUp true false true (isTofOnlyNorm [false, true]) false = true ∧
+    useTofsensAfterSetUp false false true (isTofOnlyNorm [false, true]) false = false ∧
+    useTofsensAfterSetUp true false true (isTofOnlyNorm [false]) true = true ∧
+    useTofsensAfterSetUp true false true (isTofOnlyNorm [false]) false = false := by decide
+
+example : tofRangeAfterSetUp (-1) 2 = some 2 ∧ tofRangeAfterSetUp 0 2 = some 0 ∧ tofRangeAfterSetUp 3 2 = none := by decide
 
 example : segRangeAfterSetUp (-1) 2 = some 2 ∧ segRangeAfterSetUp 1 2 = some 1 ∧ segRangeAfterSetUp 3 2 = none := by decide
 
@@ -215,24 +240,14 @@ theorem C05_textbook_sens (zero : Bool) (S : List (Viewgram K)) (v : Nat) :
     sens zero S v = tbSens (dataBins zero S) v :=
   sens_textbook zero S v
 
-/-- the full statement for the Hessian product: the bins of the data (end planes of segment 0 removed when
-    `zero_seg0_end_planes` is set, as for value and gradient) -/
-def C05_textbook_on_regular_hessTimes : Prop :=
-  ∀ (c : Consts ℚ) (zero : Bool) (img x : Nat → ℚ) (out0 : ℚ) (S : List (Viewgram ℚ)) (v : Nat),
-    RegularHess c img x S → hessTimes c img x out0 S v = out0 + tbHessTimes img x (dataBins zero S) v
+/-- the Hessian product: over the bins of the data — end planes of segment 0 removed when `zero_seg0_end_planes` is set, as for
+    value and gradient (since edcd88182 both Hessian functions clear them; before, they did not look at the flag, see
+    `C05_hessTimes_before_edcd88182_not_textbook`) -/
+theorem C05_textbook_on_regular_hessTimes (c : Consts K) (zero : Bool) (img x : Nat → K) (out0 : K) (S : List (Viewgram K)) (v : Nat)
+    (h : RegularHess c zero img x S) : hessTimes c zero img x out0 S v = out0 + tbHessTimes img x (dataBins zero S) v :=
+  hessTimes_textbook c zero img x out0 S v h
 
-/-- proved part: the Hessian product is the textbook one over *all* bins of the viewgrams it reads (the function
-    does not look at `zero_seg0_end_planes`), hence the full statement for `zero_seg0_end_planes = false` -/
-theorem C05_textbook_on_regular_hessTimes_partial (c : Consts K) (img x : Nat → K) (out0 : K) (S : List (Viewgram K)) (v : Nat)
-    (h : RegularHess c img x S) : hessTimes c img x out0 S v = out0 + tbHessTimes img x (dataBins false S) v := by
-  rw [hessTimes_textbook c img x out0 S v h]
-  have : dataBins false S = S.flatten := by
-    unfold dataBins zeroed
-    simp only [Bool.false_and, Bool.not_false]
-    exact List.filter_eq_self.mpr (fun _ _ => rfl)
-  rw [this]
-
-/-! ### instance used for non-vacuity and negative witnesses -/
+/-! ### instance used for non-vacuity and the regression witness -/
 
 def exC : Consts ℚ := { smallNum := 1 / 1000000, maxQuot := 10000, tiny := 1 / 100000000000000000000 }
 def exB1 : Bin ℚ := { endPlane := false, y := 3, a := some (1 / 2), fac := [.normFactor 2], row := [(0, 1), (1, 2)] }
@@ -244,8 +259,9 @@ def exX : Nat → ℚ := fun i => if i = 0 then 1 / 2 else 1
 
 /-- the hypotheses are satisfiable by a non-trivial instance (additive term, chained normalisation, a bin without counts,
     a cleared end plane) -/
-example : RegularGrad exC true exImg exS ∧ RegularValue exC true exImg exS ∧ RegularHess exC exImg exX exS := by
-  refine ⟨?_, ?_, ?_⟩
+example : RegularGrad exC true exImg exS ∧ RegularValue exC true exImg exS ∧ RegularHess exC true exImg exX exS ∧
+    RegularHess exC false exImg exX exS := by
+  refine ⟨?_, ?_, ?_, ?_⟩
   · unfold RegularGrad
     simp only [exS, List.forall_mem_cons, List.not_mem_nil, false_imp_iff, implies_true, and_true]
     norm_num [exB1, exB2, exB3, exC, exImg, smallOf, vgMax, maxK, yEff, zeroed, ybarTB, fwd, sumMap]
@@ -254,7 +270,10 @@ example : RegularGrad exC true exImg exS ∧ RegularValue exC true exImg exS ∧
     norm_num [exB1, exB2, exB3, exC, exImg, smallOf, vgMax, maxK, yEff, zeroed, ybarTB, fwd, sumMap, effB, undoNorm]
   · unfold RegularHess
     simp only [exS, List.forall_mem_cons, List.not_mem_nil, false_imp_iff, implies_true, and_true]
-    norm_num [exB1, exB2, exB3, exC, exImg, exX, smallOf, vgMax, maxK, hessNum, ybarTB, fwd, sumMap]
+    norm_num [exB1, exB2, exB3, exC, exImg, exX, smallOf, vgMax, maxK, hessNum, zeroed, ybarTB, fwd, sumMap]
+  · unfold RegularHess
+    simp only [exS, List.forall_mem_cons, List.not_mem_nil, false_imp_iff, implies_true, and_true]
+    norm_num [exB1, exB2, exB3, exC, exImg, exX, smallOf, vgMax, maxK, hessNum, zeroed, ybarTB, fwd, sumMap]
 
 /-- the subsets hypothesis is satisfiable with subsets in an order different from the data -/
 example : ([[[exB3]], [[exB1, exB2]]] : List (List (Viewgram ℚ))).flatten.Perm exS := by
@@ -263,10 +282,10 @@ example : ([[[exB3]], [[exB1, exB2]]] : List (List (Viewgram ℚ))).flatten.Perm
 
 /-- non-vacuity of `C05_penalised_full_hessTimes`: two subsets in an order different from the data, a prior term 3/2, output
     filled with 1/4: both sides are the same number, and it differs from the unpenalised product -/
-example : hessTimesPenFull exC exImg exX (3 / 2) 2 (1 / 4) [[[exB3]], [[exB1, exB2]]] 1
-      = penalisedFull (hessTimes exC exImg exX (1 / 4) exS 1) (3 / 2) ∧
-    hessTimesPenFull exC exImg exX (3 / 2) 2 (1 / 4) [[[exB3]], [[exB1, exB2]]] 1 ≠ hessTimes exC exImg exX (1 / 4) exS 1 := by
-  have h := C05_penalised_full_hessTimes exC exImg exX [[[exB3]], [[exB1, exB2]]] exS
+example : hessTimesPenFull exC true exImg exX (3 / 2) 2 (1 / 4) [[[exB3]], [[exB1, exB2]]] 1
+      = penalisedFull (hessTimes exC true exImg exX (1 / 4) exS 1) (3 / 2) ∧
+    hessTimesPenFull exC true exImg exX (3 / 2) 2 (1 / 4) [[[exB3]], [[exB1, exB2]]] 1 ≠ hessTimes exC true exImg exX (1 / 4) exS 1 := by
+  have h := C05_penalised_full_hessTimes exC true exImg exX [[[exB3]], [[exB1, exB2]]] exS
     (by simp only [List.flatten_cons, List.flatten_nil, List.append_nil, List.singleton_append, exS]; exact List.Perm.swap _ _ _)
     (by simp) (3 / 2) (1 / 4) 1
   simp only [List.length_cons, List.length_nil] at h
@@ -274,20 +293,21 @@ example : hessTimesPenFull exC exImg exX (3 / 2) 2 (1 / 4) [[[exB3]], [[exB1, ex
   refine ⟨h, ?_⟩
   rw [h]; unfold penalisedFull; norm_num
 
-/-- negative witness: with `zero_seg0_end_planes = true` the Hessian product still contains the end-plane bin `exB2`
-    (replayed on the implementation by the harness oracle, key `hessian:ignores-zero-seg0-end-planes`) -/
-theorem C05_textbook_on_regular_hessTimes_fails : ¬ C05_textbook_on_regular_hessTimes := by
-  intro h
-  have h1 := h exC true exImg exX 0 exS 1 (by
+/-- regression witness: what the code before edcd88182 computed with `zero_seg0_end_planes = true` — the Hessian product
+    without looking at the flag, i.e. `hessTimes … false …` — still contains the end-plane bin `exB2` and is not the textbook
+    expression over the bins of the data, whereas the product with the flag is (replayed on the implementation by the
+    harness oracle: a result that contains the end planes is a plain failure now) -/
+theorem C05_hessTimes_before_edcd88182_not_textbook :
+    hessTimes exC false exImg exX 0 exS 1 ≠ 0 + tbHessTimes exImg exX (dataBins true exS) 1 ∧
+    hessTimes exC true exImg exX 0 exS 1 = 0 + tbHessTimes exImg exX (dataBins true exS) 1 := by
+  have hreg : ∀ z, RegularHess exC z exImg exX exS := by
+    intro z
     unfold RegularHess
     simp only [exS, List.forall_mem_cons, List.not_mem_nil, false_imp_iff, implies_true, and_true]
-    norm_num [exB1, exB2, exB3, exC, exImg, exX, smallOf, vgMax, maxK, hessNum, ybarTB, fwd, sumMap])
-  have h2 := C05_textbook_on_regular_hessTimes_partial exC exImg exX 0 exS 1 (by
-    unfold RegularHess
-    simp only [exS, List.forall_mem_cons, List.not_mem_nil, false_imp_iff, implies_true, and_true]
-    norm_num [exB1, exB2, exB3, exC, exImg, exX, smallOf, vgMax, maxK, hessNum, ybarTB, fwd, sumMap])
-  rw [h2] at h1
-  norm_num [tbHessTimes, dataBins, zeroed, exS, exB1, exB2, exB3, exImg, exX, ybarTB, fwd, sumMap, coef] at h1
+    cases z <;> norm_num [exB1, exB2, exB3, exC, exImg, exX, smallOf, vgMax, maxK, hessNum, zeroed, ybarTB, fwd, sumMap]
+  refine ⟨?_, C05_textbook_on_regular_hessTimes exC true exImg exX 0 exS 1 (hreg true)⟩
+  rw [C05_textbook_on_regular_hessTimes exC false exImg exX 0 exS 1 (hreg false)]
+  norm_num [tbHessTimes, dataBins, zeroed, exS, exB1, exB2, exB3, exImg, exX, ybarTB, fwd, sumMap, coef]
 
 /-! ## "… the (subset) gradient … and Hessian-times-vector … equal the expressions derived from L":
 the derivatives themselves, over `ℝ` with `Real.log` (Mathlib `HasDerivAt`) -/
@@ -308,19 +328,13 @@ theorem C05_textbook_hessian_is_derivative_of_grad (c : Consts ℝ) (hq : 0 < c.
     HasDerivAt (fun t => grad c zero (shiftX img x t) S v) (tbHessTimes img x (dataBins zero S) v) 0 :=
   grad_hasDerivAt c hq zero img x S v h
 
-/-- the full statement: what `accumulate_sub_Hessian_times_input` adds to a zero output is the derivative of the subset gradient -/
-def C05_hess_is_derivative_of_grad : Prop :=
-  ∀ (c : Consts ℝ) (zero : Bool) (img x : Nat → ℝ) (S : List (Viewgram ℝ)) (v : Nat), 0 < c.maxQuot →
-    StrictRegularGrad c zero img S → RegularHess c img x S →
-      HasDerivAt (fun t => grad c zero (shiftX img x t) S v) (hessTimes c img x 0 S v) 0
-
-/-- proved for `zero_seg0_end_planes = false` (the Hessian functions read the viewgrams directly and never clear the end
-    planes; for `true` see `C05_textbook_on_regular_hessTimes_fails`) -/
-theorem C05_hessian_end_planes_partial (c : Consts ℝ) (hq : 0 < c.maxQuot) (img x : Nat → ℝ) (S : List (Viewgram ℝ)) (v : Nat)
-    (h : StrictRegularGrad c false img S) (hH : RegularHess c img x S) :
-    HasDerivAt (fun t => grad c false (shiftX img x t) S v) (hessTimes c img x 0 S v) 0 := by
-  rw [C05_textbook_on_regular_hessTimes_partial c img x 0 S v hH, zero_add]
-  exact grad_hasDerivAt c hq false img x S v h
+/-- **what `accumulate_sub_Hessian_times_input` adds to a zero output is the derivative of the subset gradient** along the
+    input, for both values of `zero_seg0_end_planes` (since edcd88182; before, only for `false`) -/
+theorem C05_hess_is_derivative_of_grad (c : Consts ℝ) (hq : 0 < c.maxQuot) (zero : Bool) (img x : Nat → ℝ)
+    (S : List (Viewgram ℝ)) (v : Nat) (h : StrictRegularGrad c zero img S) (hH : RegularHess c zero img x S) :
+    HasDerivAt (fun t => grad c zero (shiftX img x t) S v) (hessTimes c zero img x 0 S v) 0 := by
+  rw [C05_textbook_on_regular_hessTimes c zero img x 0 S v hH, zero_add]
+  exact grad_hasDerivAt c hq zero img x S v h
 
 noncomputable def exCR : Consts ℝ := { smallNum := 1 / 1000000, maxQuot := 10000, tiny := 1 / 100000000000000000000 }
 noncomputable def exR1 : Bin ℝ := { endPlane := false, y := 3, a := some (1 / 2), fac := [.normFactor 2], row := [(0, 1), (1, 2)] }
@@ -338,6 +352,19 @@ example : 0 < exCR.maxQuot ∧ StrictRegular exCR true exImgR exSR ∧ StrictReg
   · unfold StrictRegularGrad
     simp only [exSR, List.forall_mem_cons, List.not_mem_nil, false_imp_iff, implies_true, and_true]
     norm_num [exR1, exR2, exR3, exCR, exImgR, smallOf, vgMax, maxK, yEff, zeroed, ybarTB, fwd, sumMap]
+
+noncomputable def exXR : Nat → ℝ := fun i => if i = 0 then 1 / 2 else 1
+
+/-- the hypotheses of `C05_hess_is_derivative_of_grad` with `zero_seg0_end_planes = true` are satisfiable (an end-plane bin
+    with counts is present) -/
+example : StrictRegularGrad exCR true exImgR exSR ∧ RegularHess exCR true exImgR exXR exSR := by
+  refine ⟨?_, ?_⟩
+  · unfold StrictRegularGrad
+    simp only [exSR, List.forall_mem_cons, List.not_mem_nil, false_imp_iff, implies_true, and_true]
+    norm_num [exR1, exR2, exR3, exCR, exImgR, smallOf, vgMax, maxK, yEff, zeroed, ybarTB, fwd, sumMap]
+  · unfold RegularHess
+    simp only [exSR, List.forall_mem_cons, List.not_mem_nil, false_imp_iff, implies_true, and_true]
+    norm_num [exR1, exR2, exR3, exCR, exImgR, exXR, smallOf, vgMax, maxK, hessNum, zeroed, ybarTB, fwd, sumMap]
 
 /-! ## the executable accumulation used by the driver is the image of the model -/
 
